@@ -713,8 +713,9 @@ def main():
         tgt['tests'].append(dict(name='%s#copies_agree' % grp, props=[prop], bound='%d copies: %s' % (len(vals), ', '.join(sorted(vals))), cases=len(vals), ok=ok))
         if not ok:
             tgt['failures'].append(dict(name='%s#copies_agree' % grp, props=[prop], cls='P', desc='copies disagree on the enumerated space: %s' % json.dumps(vals), concrete=dict(digests=vals)))
-        if len(vals) < registry.DIGEST_COPIES.get(grp, 1):
-            tgt['hard'].append(dict(kind='vacuous', msg='%s: only %d of %d copies reported' % (grp, len(vals), registry.DIGEST_COPIES[grp])))
+        need, for_props = registry.DIGEST_COPIES.get(grp, (1, []))
+        if prop in for_props and len(vals) < need:
+            tgt['hard'].append(dict(kind='vacuous', msg='%s: only %d of %d copies reported' % (grp, len(vals), need)))
 
     known = load_known()
     violations = []
